@@ -95,7 +95,11 @@ def execute(ctx, case):
             elif form == "list":
                 fn(tg.tolist(), method=method)
             elif form == "2d":
-                fn(np.resize(tg, (2, 8)), method=method)
+                g2 = np.resize(tg, (2, 8))
+                fn(g2, method=method)
+                fn(np.asfortranarray(g2), method=method)  # the same grid of targets in other memory layouts
+                fn(np.ascontiguousarray(g2.T).T, method=method)
+                fn(np.resize(tg, (2, 2, 4)).transpose(1, 0, 2), method=method)
             elif form == "f32":  # targets from a single-precision pipeline: dyadic rates, exact in float32 (and float16)
                 dy = np.round(np.clip(tg, -0.25, 1.25) * 64) / 64
                 fn(dy.astype(np.float32), method=method)
